@@ -5,6 +5,8 @@
    response).  Definitions only. *)
 From Coq Require Import List ZArith NArith Bool String.
 From SeataV Require Import Base.Bytes Tcc.Json.
+From SeataV Require Export Tcc.TccTableDef.
+From SeataV Require Import Gen.TccTable.
 Import ListNotations.
 Open Scope Z_scope.
 
@@ -101,7 +103,8 @@ Definition code_of (fails : bool) : N := if fails then 0%N else 1%N.   (* Result
 
 Definition registered (reg : list bytes) (r : bytes) : bool := existsb (bytes_eqb r) reg.
 
-Definition phase2 (reg : list bytes) (q : p2req) : list p2event :=
+(* the reference behaviour, with the Seata branch-status codes written out *)
+Definition phase2_ref (reg : list bytes) (q : p2req) : list p2event :=
   if registered reg (q_resource q) then
     match ctx_of (q_app q) with
     | None =>
@@ -113,5 +116,38 @@ Definition phase2 (reg : list bytes) (q : p2req) : list p2event :=
                   (status_of (q_commit q) (q_user_fails q)) (code_of (q_user_fails q))]
     end
   else [].
+
+(* the behaviour according to the table regenerated from the Go source: which user method runs, which
+   status each outcome is given, when the processor stays silent, which result codes it uses *)
+Definition phase2 (reg : list bytes) (q : p2req) : list p2event :=
+  match (if q_commit q then gen_branch_commit else gen_branch_rollback), gen_silent_status, gen_result_codes with
+  | Some r, Some silent, Some (cfail, csucc) =>
+      let respond := fun (st : N) (failed : bool) =>
+        if (st =? silent)%N then []
+        else [ERespond (q_msgid q) (q_commit q) (q_xid q) (q_bid q) st (if failed then cfail else csucc)] in
+      if registered reg (q_resource q) then
+        match ctx_of (q_app q) with
+        | None => respond (r_bad r) true
+        | Some ctx =>
+            EInvoke (q_resource q) (r_method r =? 1)%N (q_xid q) (q_bid q) (q_resource q) ctx
+            :: respond (if q_user_fails q then r_err r else r_ok r) (q_user_fails q)
+        end
+      else respond (r_unknown r) true
+  | _, _, _ => []
+  end.
+
+(* what the table must be for the property: the obligation re-checked on every run *)
+Definition table_expected : bool :=
+  match gen_branch_commit, gen_branch_rollback, gen_silent_status, gen_result_codes with
+  | Some c, Some r, Some silent, Some (cfail, csucc) =>
+      (r_method c =? 1) && (r_phase c =? 2) && (r_ok c =? st_committed) && (r_err c =? st_commit_retry)
+      && (r_bad c =? st_commit_retry) && (r_unknown c =? silent)
+      && (r_method r =? 2) && (r_phase r =? 3) && (r_ok r =? st_rollbacked) && (r_err r =? st_rollback_retry)
+      && (r_bad r =? st_rollback_retry) && (r_unknown r =? silent)
+      && negb (silent =? st_committed) && negb (silent =? st_commit_retry)
+      && negb (silent =? st_rollbacked) && negb (silent =? st_rollback_retry)
+      && (cfail =? 0) && (csucc =? 1)
+  | _, _, _, _ => false
+  end%N.
 
 Definition phase2_seq (reg : list bytes) (qs : list p2req) : list p2event := flat_map (phase2 reg) qs.
